@@ -56,10 +56,15 @@ def multi_cases(rnd, quick):
     for _ in range(4 if quick else 40):
         shapes.append([rnd.choice(kinds) for _ in range(rnd.choice([2, 3, 4]))])
     cmds = ["t", "x", "tq", "tq1", "tq2", "xq", "xq1", "xq2", "xf", "e", "tv", "xfq0", "xi"]
+    # MANY failing members: a count of failures that is a multiple of 256 must still give a non-zero status
+    nbig = len(shapes)
+    for shape in ([["crc"] * 256, ["good"] + ["crc"] * 256, ["len"] * 255 + ["crc"], ["crc"] * 255 + ["good"], ["crc"] * 512,
+                   ["unknown"] * 256, ["crc"] * 257] + ([] if quick else [["crc"] * 1024, ["len"] * 768])):
+        shapes.append(shape)
     for shape in shapes:
         ms, parts = [], []
         for i, k in enumerate(shape):
-            n = rnd.choice([1, 3, 40, 300, 2100])
+            n = rnd.choice([1, 3, 40, 300, 2100]) if len(shape) < 200 else 1
             data = bytes(rnd.randrange(1, 256) for _ in range(n))
             name = b"m%d%s.bin" % (i, k.encode())
             length, crc, method = n, crc16(data), b"-lh0-"
@@ -73,6 +78,8 @@ def multi_cases(rnd, quick):
             ms.append((name, "good" if k == "good" else "bad", k != "unknown"))
         arc = b"".join(parts) + b"\0"
         use = cmds if len(shape) > 1 and shapes.index(shape) < 8 else rnd.sample(cmds, 4) + ["t", "x"]
+        if len(shape) >= 200:
+            use = ["t", "tq2", "xf", "eq2"]
         for cmd in use:
             res.append((arc, cmd, [], ms, "multi:" + cmd))
         # member selection: only the good ones / only one bad one / a pattern that matches all
